@@ -34,11 +34,19 @@ SPEC = {
              "can authenticate - key-id, WEPSeed, CCMP reserved - excluded), for CCMP every address octet of the AAD: never reported decrypted, "
              "still marked protected. Hostile bodies: every header variant x body length 0..64, 2399, 2400 (thorough ..130) x 4 fills (00, ff, "
              "pseudo-random, truncation of a valid frame) with the matching key registered, in a forked child per batch: no sanitizer report, "
-             "no crash. distinct_nontrivial = distinct product states holding keys or >= 2 handshake messages + distinct decrypted frames."),
+             "no crash. (3) histories on ONE decrypter object, last 8 jobs: BFS TO FIXPOINT over the operations of a single object x a last-write "
+             "model of what is registered. WEPDecrypter (4 configurations: DS form of the decrypt events x BSSID order): add_password(bssid "
+             "0/1, key of 5 / 13 / another 13 octets), remove_password(bssid 0/1), decrypt(frame for bssid b under key k); canon includes the "
+             "private scratch key buffer. WPA2Decrypter (4 configurations: Data/QoS Data x station order): add_decryption_keys(pair 0/1, CCMP / "
+             "TKIP / another CCMP key set, replacing), add_ap_data(psk, ssid) for network 0, add_ap_data(psk, ssid, bssid) for network 1, each "
+             "network's beacon, each pair's complete four-way handshake (its keys replace the pair's keys when the network is known). After "
+             "EVERY operation every frame of the family (bssid/pair x every key it could be protected with x ToDS/FromDS; for WEP on a copy "
+             "of the object, one after the other) is presented: it decrypts to its plaintext IFF the key currently registered for its "
+             "BSSID / pair is the one it was encrypted with, otherwise it is not reported decrypted and stays marked. distinct_nontrivial = distinct product states holding keys or >= 2 handshake messages + distinct decrypted frames."),
     "claim": ("Every history over the event alphabet is covered per configuration (the product state space is finite and explored to fixpoint; "
               "depth of the deepest new state is reported as max_depth), so every valid ordering with duplicates and every interleaving with the "
               "other station, beacons and data frames is checked, and every invalid ordering is checked for wrong decryptions. The frame family "
-              "is enumerated completely (exhaustive:true)."),
+              "is enumerated completely and the single-object operation histories of part 3 are explored to fixpoint (exhaustive:true)."),
     "note": ("Trusted: sanitizers; OpenSSL's CCM, HMAC-SHA1/MD5 and AES; the reference encryptors, which are validated at start-up against the "
              "published vectors (802.11-2012 annex M TKIP mixing vectors 1-4, CCMP vector, Michael chain, PBKDF2 'password'/'IEEE', PRF-512, "
              "RC4, CRC-32). Bounds: two stations, one AP, one handshake instance per station (retransmissions keep their nonces), unicast "
